@@ -39,7 +39,8 @@ static std::string snap_diff(const Snap &a, const Snap &b, bool aux_trim = true)
 	if (a.nknots != b.nknots) return "nknots";
 	if (a.naxes != b.naxes) return "naxes";
 	if (a.strides != b.strides) return "strides";
-	for (unsigned d = 0; d < a.ndim; d++) for (size_t i = 0; i < a.knots[d].size(); i++) if (!biteq(a.knots[d][i], b.knots[d][i])) return "knots";
+	for (unsigned d = 0; d < a.ndim; d++) { if (a.knots[d].size() != b.knots[d].size()) return "nknots"; for (size_t i = 0; i < a.knots[d].size(); i++) if (!biteq(a.knots[d][i], b.knots[d][i])) return "knots"; }
+	if (a.ext.size() != b.ext.size()) return "extents";
 	for (size_t i = 0; i < a.ext.size(); i++) if (!biteq(a.ext[i], b.ext[i])) return "extents";
 	if (a.periods.size() != b.periods.size()) return "periods";
 	for (size_t i = 0; i < a.periods.size(); i++) if (!biteq(a.periods[i], b.periods[i])) return "periods";
@@ -197,7 +198,7 @@ static void battery_full(Table &T, Rng &r, const std::string &prop, const char *
 static const char *AUXK[] = {"AKEY", "B2", "LONGERKEYNAME", "GEOMETRY", "A_VERY_LONG_HIERARCH_KEY", "N0", "LEVEL", "PARITY", "XY", "Z9999999", "SCALEFACTOR01", "K", "GEOTYPE", "VERSION", "AUTHOR1"};
 static void run_C06(const Args &a, long cs) {
 	Rng r(a.seed, "C06", cs);
-	GenOpts g; g.special_coef = r.coin(0.6); g.max_block = 1u << 30; g.max_coef = a.tier == "thorough" ? 200000 : 40000; g.mag_exp_max = 300; g.min_table_bias = 0.2; g.extra_knots_max = 7;
+	GenOpts g; g.custom_extents = false; g.special_coef = r.coin(0.6); g.max_block = 1u << 30; g.max_coef = a.tier == "thorough" ? 200000 : 40000; g.mag_exp_max = 300; g.min_table_bias = 0.2; g.extra_knots_max = 7;
 	Spec s = gen_spec(r, g);
 	int nd = s.ndim();
 	// pairwise different axis lengths where the size budget allows (axis-order mistakes become visible)
@@ -220,6 +221,10 @@ static void run_C06(const Args &a, long cs) {
 	int naux = r.coin(0.3) ? 0 : (int)r.below(41);
 	{ std::set<std::string> usedk; for (int i = 0; i < naux; i++) { std::string k = AUXK[r.below(15)]; if (r.coin(0.5)) k += std::to_string(r.below(30)); if (k.size() > 8 && k.size() < 10) k += "XX"; if (usedk.count(k)) continue; usedk.insert(k);
 		std::string v; int vk = (int)r.below(5); if (vk == 0) v = std::to_string((long)r.below(100000) - 50000); else if (vk == 1) { char b[40]; snprintf(b, 40, "%.12g", (r.U() - 0.5) * std::pow(10.0, r.range(-20, 20))); v = b; } else if (vk == 2) v = "text " + std::to_string(r.below(1000)); else if (vk == 3) v = "x"; else v = std::string(1 + r.below(40), 'a' + (char)r.below(26));
+		if (r.coin(0.25)) { // strings that look like other FITS value types or are not in canonical numeric form
+			static const char *odd[] = {"007", "+5", "-0", "0123456", "1e3", "1.0", "1.", ".5", "T", "F", "TRUE", "0x10", "1 2", "12 ", "a/b", "3 / 4", "NaN", "inf", "1D5", "-", "+", "00", "9223372036854775808", "1,5", "it is", "a=b", "(1,2)"};
+			v = odd[r.below(sizeof(odd) / sizeof(odd[0]))]; count("aux-values-odd");
+		}
 		s.aux.push_back({k, v}); } }
 	count("tables"); count("ndim:" + std::to_string(nd)); count("variant:" + std::string(variant == 3 ? "legacy-ORDER" : variant == 4 ? "no-EXTENTS" : variant == 5 ? "no-PERIOD" : "modern")); count("aux-keys", (long)s.aux.size());
 	Snap want = snap_of_spec(s);
@@ -237,6 +242,18 @@ static void run_C06(const Args &a, long cs) {
 		catch (std::exception &e) { ok = false; viol("C06:read:independent-raw-file-rejected", "{\"what\":" + jstr(e.what()) + ",\"table\":" + s.full_json() + "}"); }
 		if (disk) unlink(p.c_str());
 		if (ok) { df = snap_diff(want, snap(T2)); if (!df.empty()) viol("C06:read:independent-raw-file-misread:" + df, "{\"table\":" + s.full_json() + "}"); count("independent-raw-files-read"); }
+	}
+	// keys added through the API carry no FITS padding: exercise them as well
+	if (r.coin(0.6)) {
+		static const char *odd[] = {"007", "+5", "-0", "0123456", "1e3", "1.0", "1.", ".5", "T", "F", "TRUE", "0x10", "1 2", "a/b", "3 / 4", "NaN", "inf", "1D5", "-", "+", "00", "9223372036854775808", "1,5", "it is", "a=b", "(1,2)", "  lead", "x"};
+		int nk = 1 + (int)r.below(5);
+		for (int i = 0; i < nk; i++) {
+			std::string k = std::string("WK") + std::to_string(r.below(50)); if (r.coin(0.3)) k = "WRITTENLONGKEY" + std::to_string(r.below(9));
+			try {
+				switch (r.below(3)) { case 0: T.write_key(k.c_str(), std::string(odd[r.below(sizeof(odd) / sizeof(odd[0]))])); break; case 1: T.write_key(k.c_str(), (int)r.below(100000) - 50000); break; default: T.write_key(k.c_str(), (r.U() - 0.5) * 1e6); break; }
+				count("aux-keys-added-through-write_key");
+			} catch (std::exception &e) { note("write_key-refused-in-C06"); }
+		}
 	}
 	// (2) library round trip
 	bool disk = r.coin(0.5);
@@ -323,7 +340,17 @@ static Spec small_spec(Rng &r) {
 static void resize_data(RawHDU &h, size_t bytes) { h.data.resize(bytes, 0); }
 static Mut mutate(Rng &r, const Spec &s) {
 	Mut m; std::vector<RawHDU> hd = raw_from_spec(s); int nd = s.ndim();
-	int kind = (int)r.below(24);
+	int kind = (int)r.below(27);
+	if (kind >= 24) {
+		// a self-consistent file (NAXISn, ORDERn and the KNOTSn length all agree) whose knot count sits at or just below the admissible minimum 2*order+2
+		Spec t = s; int d = (int)r.below(nd); unsigned o = 1 + (unsigned)r.below(5); t.order[d] = o;
+		int nk = kind == 24 ? 2 * (int)o + 1 : kind == 25 ? (int)o + 2 + (int)r.below(o) : 2 * (int)o + 2;
+		t.knots[d] = gen_knots(r, o, nk, 1, 1.0, r.U(), true); t.legacy_single_order = false;
+		t.coef.assign(t.ncoef(), 0.5f);
+		m.name = kind == 26 ? "self-consistent-minimum-knots" : (kind == 24 ? "self-consistent-one-knot-short" : "self-consistent-too-few-knots"); m.expect_valid = kind == 26;
+		m.bytes = raw_encode(raw_from_spec(t));
+		return m;
+	}
 	auto primary_count = [&](RawHDU &p) { long na = 0; card_long(p, "NAXIS", na); size_t c = na ? 1 : 0; for (long a = 1; a <= na; a++) { long v = 0; card_long(p, "NAXIS" + std::to_string(a), v); c *= (size_t)std::max(0L, v); } return c; };
 	switch (kind) {
 	case 0: m.name = "valid"; m.expect_valid = true; break;
